@@ -2256,3 +2256,488 @@ func extraC06ArgMin(c *Ctx, r *Report) {
 	addMutants(Mutant{Prop: "C06", Name: "minimum-not-updated", File: "internal/adapter/balancer/least_connections.go", Rule: "C06-R9",
 		Old: "			minConnections = connections\n", New: ""})
 }
+
+// ---------- C07-R12: the recovery callback re-discovers the endpoint that recovered ----------
+func init() { registerExtra("C07", extraC07RecoveryTarget) }
+
+func extraC07RecoveryTarget(c *Ctx, r *Report) {
+	r.Rule("C07-R12", "the function wired as the health checker's recovery callback passes the endpoint it is called with to the model-discovery call it makes (DiscoverEndpoint(ctx, endpoint)): a sweep over 'all active endpoints' skips endpoints whose discovery was disabled while they were down and can be cancelled by another endpoint's error, so the recovered endpoint would not be re-discovered", 1)
+	n := 0
+	for _, f := range c.Funcs {
+		if !c.inRepo(f) {
+			continue
+		}
+		eachInstr(f, func(in ssa.Instruction) {
+			cc := getCall(in)
+			if cc == nil {
+				return
+			}
+			name := ""
+			if cc.IsInvoke() {
+				name = cc.Method.Name()
+			} else if sc := cc.StaticCallee(); sc != nil {
+				name = sc.Name()
+			}
+			if name != "SetRecoveryCallback" {
+				return
+			}
+			// the callback: a closure (possibly converted to RecoveryCallbackFunc and to the interface)
+			var cb *ssa.Function
+			var find func(v ssa.Value, d int)
+			find = func(v ssa.Value, d int) {
+				if v == nil || d == 0 || cb != nil {
+					return
+				}
+				switch x := v.(type) {
+				case *ssa.MakeClosure:
+					cb, _ = x.Fn.(*ssa.Function)
+				case *ssa.Function:
+					cb = x
+				case *ssa.MakeInterface:
+					find(x.X, d-1)
+				case *ssa.ChangeType:
+					find(x.X, d-1)
+				case *ssa.ChangeInterface:
+					find(x.X, d-1)
+				}
+			}
+			for _, a := range cc.Args {
+				find(a, 5)
+			}
+			if cb == nil {
+				return
+			}
+			n++
+			key := fname(cb) + ":rediscover-recovered-endpoint"
+			var ep *ssa.Parameter
+			for _, p := range cb.Params {
+				if isEndpointPtr(p.Type()) {
+					ep = p
+				}
+			}
+			okCall := false
+			eachInstr(cb, func(i2 ssa.Instruction) {
+				c2 := getCall(i2)
+				if c2 == nil || ep == nil {
+					return
+				}
+				nm := describeCall(c2).Name
+				if c2.IsInvoke() {
+					nm = c2.Method.Name()
+				}
+				if !strings.Contains(nm, "Discover") {
+					return
+				}
+				for _, a := range c2.Args {
+					if a == ssa.Value(ep) {
+						okCall = true
+					}
+				}
+			})
+			if okCall {
+				r.OK("C07-R12", key, cb.Pos(), "discovery is invoked for the callback's own endpoint")
+			} else {
+				r.Bad("C07-R12", key, cb.Pos(), "the recovery callback does not hand the recovered endpoint to a discovery call: the transition to healthy no longer guarantees one model re-discovery for that endpoint")
+			}
+		})
+	}
+	if n == 0 {
+		r.Unresolved("C07-R12", "SetRecoveryCallback call with a function value")
+	}
+	addMutants(Mutant{Prop: "C07", Name: "recovery-discovers-all", File: "internal/app/services/discovery.go", Rule: "C07-R12",
+		Old: "s.modelDiscovery.DiscoverEndpoint(ctx, endpoint); err != nil {\n				s.logger.Warn(\"Failed to discover models for recovered endpoint\"", New: "s.modelDiscovery.DiscoverAll(ctx); err != nil {\n				s.logger.Warn(\"Failed to discover models for recovered endpoint\""})
+}
+
+// ---------- C08-R12: admission is decided on the value the atomic update returned ----------
+func init() { registerExtra("C08", extraC08AdmitAtomic) }
+
+func extraC08AdmitAtomic(c *Ctx, r *Report) {
+	r.Rule("C08-R12", "a breaker function that admits a caller by counting it (an atomic Add / CompareAndSwap on a field, result bool) decides on the value that update returned; it does not first Load the same field, compare, and then Add — concurrent callers would all pass the check before any of them counts, admitting more half-open probes than configured", 1)
+	n := 0
+	for _, f := range c.Funcs {
+		if f.Parent() != nil || f.Signature.Recv() == nil || !c.inRepo(f) {
+			continue
+		}
+		if !strings.Contains(recvTypeName(f.Signature.Recv().Type()), "ircuit") {
+			continue
+		}
+		res := f.Signature.Results()
+		if res.Len() != 1 || res.At(0).Type().String() != "bool" {
+			continue
+		}
+		adds := map[*types.Var]ssa.Instruction{}
+		loadsInCond := map[*types.Var]bool{}
+		eachInstr(f, func(in ssa.Instruction) {
+			kind, _, fld, _, ok := atomicFieldCall(in)
+			if !ok {
+				return
+			}
+			switch kind {
+			case "add", "cas", "swap":
+				adds[fld] = in
+			case "load":
+				// used (possibly through a conversion) in a comparison that feeds a branch
+				v, _ := in.(ssa.Value)
+				var used func(v ssa.Value, d int) bool
+				used = func(v ssa.Value, d int) bool {
+					if v == nil || d == 0 || v.Referrers() == nil {
+						return false
+					}
+					for _, ref := range *v.Referrers() {
+						switch x := ref.(type) {
+						case *ssa.If:
+							return true
+						case *ssa.BinOp:
+							if used(x, d-1) {
+								return true
+							}
+						case *ssa.Convert:
+							if used(x, d-1) {
+								return true
+							}
+						}
+					}
+					return false
+				}
+				if used(v, 4) {
+					loadsInCond[fld] = true
+				}
+			}
+		})
+		for fld, add := range adds {
+			if kind, _, _, _, _ := atomicFieldCall(add); kind != "add" {
+				continue
+			}
+			n++
+			key := fmt.Sprintf("%s:%s-admission", fname(f), cfieldName(fld))
+			if loadsInCond[fld] {
+				r.Bad("C08-R12", key, add.Pos(), "the counter is read and compared first and incremented afterwards (check-then-act): callers racing in the half-open state can all see room and all be admitted")
+			} else {
+				r.OK("C08-R12", key, add.Pos(), "admission decided on the value returned by the atomic update")
+			}
+		}
+	}
+	if n == 0 {
+		r.Triv("C08-R12", "counting-admissions", token.NoPos, "no breaker function admits callers by incrementing a counter")
+	}
+	addMutants(Mutant{Prop: "C08", Name: "halfopen-check-then-add", File: "internal/adapter/unifier/circuit_breaker.go", Rule: "C08-R12",
+		Old: "	current := cb.halfOpenRequests.Add(1)\n	return int(current) <= cb.config.HalfOpenRequests", New: "	if int(cb.halfOpenRequests.Load()) >= cb.config.HalfOpenRequests {\n		return false\n	}\n	cb.halfOpenRequests.Add(1)\n	return true"})
+}
+
+func cfieldName(f *types.Var) string {
+	if f == nil {
+		return "?"
+	}
+	return f.Name()
+}
+
+// ---------- C09-R9 / C10-R9: one key function per registry index ----------
+func init() {
+	registerExtra("C09", func(c *Ctx, r *Report) { registryKeyConsistency(c, r, "C09-R9") })
+	registerExtra("C10", func(c *Ctx, r *Report) { registryKeyConsistency(c, r, "C10-R9") })
+}
+
+func registryKeyConsistency(c *Ctx, r *Report, rule string) {
+	r.Rule(rule, "every access to a registry index (modelToEndpoints, endpointModels: Load, LoadOrCompute, Store, Delete) derives its key by the same chain of functions from the model name / endpoint URL: a normalisation (lower-casing, trimming) applied where entries are added and looked up but not where they are removed leaves stale attributions behind — a model stays routable on an endpoint that stopped listing it", 2)
+	for _, field := range []string{"modelToEndpoints", "endpointModels"} {
+		chains := map[string][]string{}
+		pos := map[string]token.Pos{}
+		for _, f := range c.Funcs {
+			if !strings.HasSuffix(fnPkgPath(f), pkgRegistry) {
+				continue
+			}
+			eachInstr(f, func(in ssa.Instruction) {
+				cc := getCall(in)
+				if cc == nil || cc.IsInvoke() || len(cc.Args) < 2 {
+					return
+				}
+				ci := describeCall(cc)
+				if !strings.Contains(ci.Pkg, "xsync") {
+					return
+				}
+				switch ci.Name {
+				case "Load", "LoadOrCompute", "LoadOrStore", "Store", "Delete", "LoadAndDelete", "Compute":
+				default:
+					return
+				}
+				if !mentionsFieldNamed(cc.Args[0], field) {
+					if ld, ok := cc.Args[0].(*ssa.UnOp); !ok || !mentionsFieldNamed(ld.X, field) {
+						return
+					}
+				}
+				if cc.Args[1].Type().String() != "string" {
+					return
+				}
+				ch := keyChain(cc.Args[1], 6)
+				chains[ch] = append(chains[ch], fname(f)+"."+ci.Name)
+				if _, ok := pos[ch]; !ok {
+					pos[ch] = in.Pos()
+				}
+			})
+		}
+		key := "registry." + field + ":key-function"
+		switch {
+		case len(chains) == 0:
+			r.Undecided(rule, key, token.NoPos, "no keyed access found")
+		case len(chains) == 1:
+			for ch, fs := range chains {
+				r.OK(rule, key, pos[ch], fmt.Sprintf("all %d accesses use the key %q(name)", len(fs), ch))
+			}
+		default:
+			var parts []string
+			var p token.Pos
+			for _, ch := range sortedKeys(chains) {
+				parts = append(parts, fmt.Sprintf("%q in %s", ch, strings.Join(chains[ch], ", ")))
+				p = pos[ch]
+			}
+			r.Bad(rule, key, p, "the index is keyed by different functions of the name ("+strings.Join(parts, "; ")+"): entries added under one key are not found (or not removed) under the other")
+		}
+	}
+	if rule == "C09-R9" {
+		addMutants(Mutant{Prop: "C09", Name: "index-key-lowercased-on-lookup-only", File: "internal/adapter/registry/memory_registry.go", Rule: "C09-R9",
+			Old: "	endpointSet, ok := r.modelToEndpoints.Load(modelName)\n	if !ok {\n		return []string{}, nil", New: "	endpointSet, ok := r.modelToEndpoints.Load(strings.ToLower(modelName))\n	if !ok {\n		return []string{}, nil"})
+	}
+}
+
+// ---------- C10-R10: the unifier detaches every old attribution of an endpoint before merging its new listing ----------
+func init() { registerExtra("C10", extraC10UnifierTeardown) }
+
+func extraC10UnifierTeardown(c *Ctx, r *Report) {
+	r.Rule("C10-R10", "in the unifier, the loop over the models previously attributed to an endpoint (result of GetEndpointModels) hands every element to the detach call on every iteration: no per-element condition skips it — unified ids and native names differ (same name, new digest), so a 'still listed' shortcut leaves attributions of the replaced listing in the catalogue", 1)
+	n := 0
+	for _, f := range c.Funcs {
+		if f.Parent() != nil || !strings.HasSuffix(fnPkgPath(f), "internal/adapter/unifier") || f.Blocks == nil {
+			continue
+		}
+		// the list
+		var list ssa.Value
+		eachInstr(f, func(in ssa.Instruction) {
+			if call, ok := in.(*ssa.Call); ok && describeCall(&call.Call).Name == "GetEndpointModels" {
+				list = call
+			}
+		})
+		if list == nil {
+			continue
+		}
+		for h, loop := range naturalLoops(f) {
+			// loop ranges over list: some IndexAddr/Index on list inside the loop
+			var elem ssa.Value
+			for b := range loop {
+				for _, in := range b.Instrs {
+					if ld, ok := in.(*ssa.UnOp); ok && ld.Op == token.MUL {
+						if ia, ok := ld.X.(*ssa.IndexAddr); ok && ia.X == list {
+							elem = ld
+						}
+					}
+				}
+			}
+			if elem == nil {
+				continue
+			}
+			n++
+			key := fname(f) + ":old-attributions-detached"
+			isDetach := func(in ssa.Instruction) bool {
+				cc := getCall(in)
+				if cc == nil {
+					return false
+				}
+				for _, a := range cc.Args {
+					if a == elem {
+						if sc := cc.StaticCallee(); sc != nil && c.inRepo(sc) {
+							return true
+						}
+					}
+				}
+				return false
+			}
+			// from the element load to the loop header without passing the detach call?
+			ei := elem.(ssa.Instruction)
+			skip := reachAvoiding(ei, h.Instrs[0], isDetach)
+			if skip {
+				r.Bad("C10-R10", key, ei.Pos(), "an iteration of the tear-down loop can end without detaching that model from the endpoint: attributions of the endpoint's previous listing survive the new one")
+			} else {
+				r.OK("C10-R10", key, ei.Pos(), "every previously attributed model is detached before the new listing is merged")
+			}
+		}
+	}
+	if n == 0 {
+		r.Undecided("C10-R10", "unifier-teardown-loop", token.NoPos, "no loop over GetEndpointModels(...) found in the unifier")
+	}
+	addMutants(Mutant{Prop: "C10", Name: "unifier-keeps-still-listed", File: "internal/adapter/unifier/default_unifier.go", Rule: "C10-R10",
+		Old: "	for _, modelID := range oldModelIDs {\n		u.removeModelFromEndpoint(modelID, endpointURL)", New: "	for _, modelID := range oldModelIDs {\n		if len(modelID) > 40 {\n			continue\n		}\n		u.removeModelFromEndpoint(modelID, endpointURL)"})
+}
+
+// ---------- C10-R11: mutations of the registry's attribution state need the write lock ----------
+func init() { registerExtra("C10", extraC10WriteLock) }
+
+func extraC10WriteLock(c *Ctx, r *Report) {
+	r.Rule("C10-R11", "in MemoryModelRegistry, every instruction that changes attribution state — an xsync mutator on endpointModels / modelToEndpoints (or on a set loaded from them), or a store into an EndpointModels entry loaded from them — runs with mu held exclusively (Lock, not RLock): the listing update is a read-modify-write of a shared entry, and two registrations under the read lock lose one of the updates", 4)
+	const ownerType, mutexField = "MemoryModelRegistry", "mu"
+	callers := map[*ssa.Function][]ssa.Instruction{}
+	for _, g := range c.Funcs {
+		eachInstr(g, func(in ssa.Instruction) {
+			if cc := getCall(in); cc != nil {
+				if sc := cc.StaticCallee(); sc != nil {
+					callers[sc] = append(callers[sc], in)
+				}
+			}
+		})
+	}
+	var heldAtEntry func(f *ssa.Function, depth int) bool
+	heldAtEntry = func(f *ssa.Function, depth int) bool {
+		top := topParent(f)
+		cs := callers[top]
+		if len(cs) == 0 || depth == 0 {
+			return false
+		}
+		for _, site := range cs {
+			if _, isGo := site.(*ssa.Go); isGo {
+				return false
+			}
+			if lockHeld(site.Parent(), site, pkgRegistry, ownerType, mutexField, true) {
+				continue
+			}
+			if !heldAtEntry(site.Parent(), depth-1) {
+				return false
+			}
+		}
+		return true
+	}
+	closureHeld := func(f *ssa.Function) bool {
+		p := f.Parent()
+		if p == nil {
+			return false
+		}
+		held := false
+		eachInstr(p, func(in ssa.Instruction) {
+			mc, ok := in.(*ssa.MakeClosure)
+			if !ok || mc.Fn != f {
+				return
+			}
+			for _, ref := range *mc.Referrers() {
+				switch ref.(type) {
+				case *ssa.Go, *ssa.Defer:
+					return
+				}
+			}
+			if lockHeld(p, in, pkgRegistry, ownerType, mutexField, true) {
+				held = true
+			}
+		})
+		return held
+	}
+	// sharedRoot: the value is (derived from) guarded state of the registry: a guarded field, or the result of a
+	// Load/LoadOrCompute/Range callback on one; a value allocated or constructed in this function is not shared.
+	var sharedRoot func(v ssa.Value, depth int) string
+	sharedRoot = func(v ssa.Value, depth int) string {
+		if depth == 0 || v == nil {
+			return ""
+		}
+		switch x := v.(type) {
+		case *ssa.FieldAddr:
+			o, fld, _ := fieldOf(x)
+			if isNamed(o, pkgRegistry, ownerType) && (cfield(o, fld) == "endpointModels" || cfield(o, fld) == "modelToEndpoints") {
+				if _, fresh := x.X.(*ssa.Alloc); fresh {
+					return ""
+				}
+				return cfield(o, fld)
+			}
+			return sharedRoot(x.X, depth-1)
+		case *ssa.IndexAddr:
+			return sharedRoot(x.X, depth-1)
+		case *ssa.UnOp:
+			return sharedRoot(x.X, depth-1)
+		case *ssa.Extract:
+			return sharedRoot(x.Tuple, depth-1)
+		case *ssa.Phi:
+			for _, e := range x.Edges {
+				if s := sharedRoot(e, depth-1); s != "" {
+					return s
+				}
+			}
+		case *ssa.Call:
+			if x.Call.IsInvoke() || len(x.Call.Args) == 0 {
+				return ""
+			}
+			ci := describeCall(&x.Call)
+			if strings.Contains(ci.Pkg, "xsync") && (ci.Name == "Load" || ci.Name == "LoadOrCompute" || ci.Name == "LoadOrStore") {
+				return sharedRoot(x.Call.Args[0], depth-1)
+			}
+		}
+		return ""
+	}
+	n := 0
+	for _, f := range c.Funcs {
+		if !strings.HasSuffix(fnPkgPath(f), pkgRegistry) {
+			continue
+		}
+		top := topParent(f)
+		if top.Signature.Recv() == nil || !isNamed(top.Signature.Recv().Type(), pkgRegistry, ownerType) {
+			continue
+		}
+		eachInstr(f, func(in ssa.Instruction) {
+			what := ""
+			if cc := getCall(in); cc != nil && !cc.IsInvoke() && len(cc.Args) > 0 {
+				ci := describeCall(cc)
+				if strings.Contains(ci.Pkg, "xsync") && xsyncMutators[ci.Name] {
+					if s := sharedRoot(cc.Args[0], 8); s != "" {
+						what = s + "." + ci.Name
+					}
+				}
+			}
+			if st, ok := in.(*ssa.Store); ok {
+				switch a := st.Addr.(type) {
+				case *ssa.FieldAddr, *ssa.IndexAddr:
+					if s := sharedRoot(a, 8); s != "" {
+						what = s + "-entry=store"
+					}
+				}
+			}
+			if what == "" {
+				return
+			}
+			n++
+			key := fmt.Sprintf("%s:%s", fname(f), what)
+			switch {
+			case lockHeld(f, in, pkgRegistry, ownerType, mutexField, true):
+				r.OK("C10-R11", key, in.Pos(), "mu.Lock() dominates the mutation and is not released before it")
+			case closureHeld(f):
+				r.OK("C10-R11", key, in.Pos(), "synchronous closure created while the enclosing function holds mu.Lock()")
+			case heldAtEntry(f, 3):
+				r.OK("C10-R11", key, in.Pos(), "helper: every caller holds mu.Lock() at the call site")
+			default:
+				r.Bad("C10-R11", key, in.Pos(), "attribution state is changed ("+what+") without the registry's write lock: at most the read lock is held, so concurrent registrations interleave their read-modify-write and one listing update is lost")
+			}
+		})
+	}
+	if n == 0 {
+		r.Undecided("C10-R11", "registry-mutations", token.NoPos, "no mutation of MemoryModelRegistry attribution state found")
+	}
+	addMutants(Mutant{Prop: "C10", Name: "register-model-under-read-lock", File: "internal/adapter/registry/memory_registry.go", Rule: "C10-R11",
+		Old: "\tdefault:\n\t}\n\n\tr.mu.Lock()\n\tdefer r.mu.Unlock()\n\n\tendpointData, _ := r.endpointModels.LoadOrCompute(",
+		New: "\tdefault:\n\t}\n\n\tr.mu.RLock()\n\tdefer r.mu.RUnlock()\n\n\tendpointData, _ := r.endpointModels.LoadOrCompute("})
+}
+
+// ---------- wave-4 own-property aliases ----------
+func init() {
+	// the stream buffer goes back to the pool in a defer that runs before the body's; anything but an immediate Close
+	// in the body's defer leaves the abandoned timed reader writing into a buffer another request already relays from (C02)
+	registerExtra("C02", func(c *Ctx, r *Report) {
+		r.WithAlias(map[string]string{"C18-R7": "C02-R11"}, func() { checkC18(c, r) })
+	})
+	// status marks are keyed by the endpoint's URL string: a URL builder that writes into the endpoint's own *url.URL
+	// changes the key of the stored record, and every later mark misses it (C03)
+	registerExtra("C03", func(c *Ctx, r *Report) {
+		r.WithAlias(map[string]string{"C16-R1": "C03-R13"}, func() { checkC16(c, r) })
+	})
+	// least-connections reads the gauge the collector keeps: a decrement that is not one clamped compare-and-swap
+	// shows a negative count (the selector's "nothing chosen yet" sentinel) or wipes concurrent increments (C06)
+	registerExtra("C06", func(c *Ctx, r *Report) {
+		r.WithAlias(map[string]string{"C19-R8": "C06-R10"}, func() { extraC19(c, r) })
+	})
+	// the routing strategies' fallback "all" means all healthy endpoints: every source of the list they are given is
+	// the live healthy query, not the full endpoint list (C09)
+	registerExtra("C09", func(c *Ctx, r *Report) {
+		r.WithAlias(map[string]string{"C03-R1": "C09-R10"}, func() { checkC03(c, r) })
+	})
+}
